@@ -5,6 +5,7 @@ import (
 	"fmt"
 	"os"
 	"path/filepath"
+	"runtime"
 	"strings"
 	"sync"
 	"time"
@@ -33,8 +34,36 @@ type c02TraceEv struct {
 	gid     int64
 }
 
+// c02Quiesce waits until the worker goroutines of earlier IndexFromFile calls are gone.
+// IndexFromFile returns as soon as its collector has the whole index; workers that were stopped
+// only notice at their next loop iteration, so they can outlive the call and would report their
+// last events (a send, their exit) into the trace of the NEXT run.
+var c02BaseGoroutines int
+
+func c02Quiesce(r *vh.Result) {
+	// wait until the goroutine count has not changed for 3 ms (stopped workers leave within microseconds
+	// once the scheduling hook is gone), at most 300 ms
+	deadline := time.Now().Add(300 * time.Millisecond)
+	last, since := runtime.NumGoroutine(), time.Now()
+	for {
+		time.Sleep(300 * time.Microsecond)
+		n := runtime.NumGoroutine()
+		if n != last {
+			last, since = n, time.Now()
+		}
+		if n <= c02BaseGoroutines || time.Since(since) > 3*time.Millisecond {
+			return
+		}
+		if time.Now().After(deadline) {
+			r.Dist("trace:quiesce-timeout")
+			return
+		}
+	}
+}
+
 func c02TraceOne(a vh.Args, o *vh.Oracle, r *vh.Result, c *c02Case) error {
 	r.Running(c)
+	c02Quiesce(r)
 	blob := vh.UnHex(c.BlobHex)
 	desync.Digest = desync.SHA512256{}
 	name := filepath.Join(a.Work, "trace.blob")
@@ -63,6 +92,7 @@ func c02TraceOne(a vh.Args, o *vh.Oracle, r *vh.Result, c *c02Case) error {
 	cancel()
 	desync.VerifSetYieldHook(nil)
 	desync.VerifTraceBegin, desync.VerifTraceEnd = nil, nil
+	c02Quiesce(r)
 	r.Count(fmt.Sprintf("trace|%d|%d|%d|%d|%s|%d|%d", c.Min, c.Avg, c.Max, c.N, c.BlobHex[:min(24, len(c.BlobHex))], len(blob), c.Sched), len(idx.Chunks) > 2 && c.N > 1)
 	r.Dist("trace:blob:" + c.Shape)
 	if err != nil {
